@@ -72,6 +72,7 @@ def check(run):
     engine(run, p)
     catsync(run, p)
     evidence(run, p)
+    discard(run, p)
     from .. import ief, triage
     ief.run_ief(run, 'C03', [p.fn(RX + 'extract'), p.fn(RX + 'pdextract'), p.method('Extractor', '__init__')], triage=triage.IEF, selfattr=True)
     run.floor('C03-IEF', run.units['ief_functions_checked'], 60)
@@ -483,4 +484,74 @@ def evidence(run, p, rid='C03-EVIDENCE'):
                                          'only while `%s`%s' % (capped[0], ' (allowed: %s)' % CAPPED_OK[nm] if nm in CAPPED_OK else
                                                                 ': characters or run patterns of later examples are never seen, so the class chosen '
                                                                 'for the fragment can exclude them')), fn=f, node=s)
-    run.floor(rid, n, 4)
+    # the counter that enforces the cap counts what the cap is about: the distinct strings stored, not the examples seen
+    for s in p.own_nodes(f):
+        if isinstance(s, (ast.Assign, ast.AugAssign)):
+            tg = s.targets if isinstance(s, ast.Assign) else [s.target]
+            if any(isinstance(t, ast.Subscript) and isinstance(t.value, ast.Name) and t.value.id in caps for t in tg):
+                n += 1
+                v = s.value
+                ok = isinstance(s, ast.Assign) and isinstance(v, ast.Call) and getattr(v.func, 'id', '') == 'len' and len(v.args) == 1 and \
+                    isinstance(v.args[0], ast.Subscript) and isinstance(v.args[0].value, ast.Name) and v.args[0].value.id in CAPPED_OK
+                run.ob(rid, '%s::%s::cap-counter' % (f.rel, f.short), ok,
+                       'the cap counter is set by `%s`%s' % (norm(s)[:50], '' if ok else
+                                                             ': it no longer counts the distinct strings stored, so collection can stop while '
+                                                             'only one distinct string has been seen and the fragment is taken for a constant'),
+                       fn=f, node=s)
+    run.floor(rid, n, 5)
+
+
+def discard(run, p, rid='C03-DISCARD'):
+    import collections
+    import itertools
+    from ..pyeval import SAFE_BUILTINS
+    run.rule(rid, 'an example is dropped only by an explicit option: over (strip, remove_empties) x representative strings (empty, '
+                  'blank, tab, padded, plain, null) Extractor.clean keeps exactly the strings the options say - the string as it will be '
+                  'used (stripped only if strip is on) is what is tested for emptiness - and its counters agree; evaluated by abstract '
+                  'interpretation of clean() for list and frequency-dictionary input')
+    ex = p.cls('Extractor')
+    f = ex.methods['clean']
+    SAFE_BUILTINS.setdefault('Counter', collections.Counter)
+    I = Interp(p)
+
+    def hook(m, args, kwargs, selfobj):
+        if m.name == '__init__' and m.cls is not None and m.cls.name == 'Examples':
+            selfobj.attrs['strings'] = list(args[0])
+            selfobj.attrs['freqs'] = list(args[1])
+            return True, None
+        if m.name == 'ilist':
+            return True, list(args[0])
+        return False, None
+    I.on_call = hook
+    strings = ['', ' ', 'a', ' a ', None, '\t', 'b ', ' ']
+    n = 0
+    for strip, rem, form in itertools.product((False, True), (False, True), ('list', 'dict')):
+        o = Obj(ex)
+        o.attrs.update(strip=strip, remove_empties=rem, n_nulls=0, n_empties=0, n_stripped=0, verbose=0)
+        arg = list(strings) if form == 'list' else collections.OrderedDict((s, 2) for s in strings)
+        mult = 1 if form == 'list' else 2
+        I.steps = 0
+        try:
+            r = I.call(f, [arg], selfobj=o)
+        except Unsupported as e:
+            raise AnalysisError('Extractor.clean not interpretable: %s' % e)
+        want, nn, ne, ns = [], 0, 0, 0
+        for s in strings:
+            if s is None:
+                nn += mult
+                continue
+            kept = s.strip() if strip else s
+            if rem and kept == '':
+                ne += mult
+                continue
+            if kept not in want:
+                want.append(kept)
+            if kept != s:
+                ns += mult
+        got = r.attrs.get('strings') if isinstance(r, Obj) else None
+        n += 1
+        ok = got is not None and sorted(got) == sorted(want) and (o.attrs['n_nulls'], o.attrs['n_empties'], o.attrs['n_stripped']) == (nn, ne, ns)
+        run.ob(rid, 'strip=%s,remove_empties=%s,%s' % (strip, rem, form), ok,
+               'clean keeps %r (expected %r); nulls/empties/stripped = %r (expected %r)' % (
+                   got, want, (o.attrs['n_nulls'], o.attrs['n_empties'], o.attrs['n_stripped']), (nn, ne, ns)), fn=f)
+    run.floor(rid, n, 8)
